@@ -1,7 +1,7 @@
 mod flags;
 pub(crate) use flags::Flags;
 
-use crate::common::Reader;
+use crate::common::{DecodeError, DecodeResult, Reader};
 
 #[derive(Clone, Debug, Eq, PartialEq)]
 pub(crate) struct Header {
@@ -15,7 +15,7 @@ impl Header {
     pub const LENGTH: u16 = 6;
 
     #[inline]
-    pub fn try_read<T>(reader: &mut impl Reader<T>) -> Option<Self> {
+    pub fn try_read<T>(reader: &mut impl Reader<T>) -> Option<DecodeResult<Self>> {
         // Note: Subsequent unsafe code depends on this check
         if reader.len() < Self::LENGTH as usize {
             return None;
@@ -37,13 +37,16 @@ impl Header {
         // The final 2 octets are the Attribute Type
         let attribute_type = unsafe { reader.read_u16_be_unchecked() };
 
+        if length < Self::LENGTH {
+            return Some(Err(DecodeError::InvalidAVPLength(length)));
+        }
         let payload_length = length - Self::LENGTH;
 
-        Some(Header {
+        Some(Ok(Header {
             flags,
             payload_length,
             vendor_id,
             attribute_type,
-        })
+        }))
     }
 }
